@@ -341,6 +341,18 @@ def check(prop, tier, seed):
     if os.environ.get("VERIF_RUNS"):
         n_hist = int(os.environ["VERIF_RUNS"])
     hists = [gen_history(rnd, n_specs, crash_ops) for _ in range(n_hist)]
+    # the "example never modifies a file that already exists" clause does not hang on the draw: for every design,
+    # gen; example; <the user appends to / empties / replaces each of a few example files>; example - and the
+    # same after an example run that died at a few points
+    for i in range(n_specs):
+        for how in ("append", "truncate", "replace"):
+            for pick in range(3 if quick else 8):
+                hists.append({"spec": i, "steps": [{"kind": "gen", "maporder": "sorted", "clock": 1700000000}, {"kind": "example", "maporder": "reverse", "clock": 946684800},
+                                                   {"kind": "user-edit", "how": how, "pick": pick}, {"kind": "example", "maporder": "seed:%d" % (seed * 31 + pick), "clock": 4102444800, "hashseed": pick}]})
+        for at in ((3, 17, 40, 77) if quick else range(2, 120, 6)):
+            hists.append({"spec": i, "steps": [{"kind": "gen", "maporder": "sorted", "clock": 1700000000},
+                                               {"kind": "example", "label": "crashed-example", "fault": "crash@%d" % at, "maporder": "sorted", "clock": 1700000000},
+                                               {"kind": "example", "maporder": "reverse", "clock": 946684800}]})
     # ---- C. crash-point enumeration over the stated quotient, spec 0: crashed-gen@n ; gen
     enum = []
     n_enum_specs = 1 if quick else min(n_specs, 10)
